@@ -1,6 +1,7 @@
 import Cuke.Lemmas.Sched
 import Cuke.Lemmas.SchedLts
 import Cuke.Model.SchedMon
+import Cuke.Lemmas.Brackets
 /-!
 # C03 — Event stream framing: run/feature/rule brackets are exact and properly nested
 Model: `Cuke.startScenarios`, `Cuke.scenarioFinished`, `Cuke.finishAll`, the run-level labels of the
@@ -142,5 +143,42 @@ def exLog : List Label :=
 
 example : (finalChecks (accept exCfg exLog)).dis.isEmpty = true ∧ SMon.framed exCfg exLog = none := by
   decide +kernel
+
+/-! ## The bracket ledger over whole runs -/
+
+open Cuke.BrL in
+/-- **Bracket ledger.** For EVERY sequence of dispatched batches and drained completion notifications
+    (any batches, any order, retried or final, any scenario counts — as long as the bookkeeping does not hit a
+    `panic!` branch): for every feature, #Started = #Finished + 1 if it is still in the map, else
+    #Started = #Finished; likewise for every rule. So the Started / Finished events of one feature (rule)
+    always alternate, beginning with Started: never two Started without a Finished in between, never a
+    Finished without its Started. -/
+theorem bracket_ledger (ops : List BOp) (b : Brackets) (out : List Ev)
+    (h : brRun Brackets.empty ops = some (b, out)) : FeatLedger b out ∧ RuleLedger b out := by
+  have hF : FeatLedger Brackets.empty [] := ⟨by simp [keysF, Brackets.empty], fun f => by simp [keysF, Brackets.empty, cnt]⟩
+  have hR : RuleLedger Brackets.empty [] := ⟨by simp [keysR, Brackets.empty], fun f r => by simp [keysR, Brackets.empty, cnt]⟩
+  simpa using brRun_ledgers Brackets.empty b ops [] out hF hR h
+
+open Cuke.BrL in
+/-- **Every bracket is closed exactly once by the end of the run**: after `finish_all_rules_and_features`
+    (all open rules, then all open features) every feature and every rule has as many Finished as Started
+    events — whatever happened before (retries still pending, fail-fast, lazily parsed features). -/
+theorem brackets_balanced_at_exit (ops : List BOp) (b : Brackets) (out : List Ev)
+    (h : brRun Brackets.empty ops = some (b, out)) :
+    (∀ f, cnt (.featStarted f) (out ++ (finishAll b).1 ++ (finishAll b).2) =
+            cnt (.featFinished f) (out ++ (finishAll b).1 ++ (finishAll b).2)) ∧
+    (∀ f r, cnt (.ruleStarted f r) (out ++ (finishAll b).1 ++ (finishAll b).2) =
+            cnt (.ruleFinished f r) (out ++ (finishAll b).1 ++ (finishAll b).2)) := by
+  obtain ⟨hF, hR⟩ := bracket_ledger ops b out h
+  exact finishAll_balances b out hF hR
+
+/-- non-vacuity: two scenarios of a rule in one feature; the first ends retried, then both end finally -/
+def ledgerOps : List Cuke.BrL.BOp :=
+  let e (id scen : Nat) : Entry := { id := id, key := ⟨1, some 5, scen⟩, serial := false, ret := none, t0 := none }
+  [.start [e 10 2, e 11 3], .fin ⟨1, some 5, 2⟩ true 2 2, .start [e 12 2], .fin ⟨1, some 5, 3⟩ false 2 2,
+   .fin ⟨1, some 5, 2⟩ false 2 2]
+
+example : (Cuke.BrL.brRun Brackets.empty ledgerOps).map (·.2) =
+    some [.featStarted 1, .ruleStarted 1 5, .ruleFinished 1 5, .featFinished 1] := by decide +kernel
 
 end Cuke.C03
